@@ -56,7 +56,6 @@ elif PRE == "warnings-error":
 elif PRE == "elsewhere":
     import os
     os.chdir("/")
-    sys.setrecursionlimit(400)
 steps = []
 for m in order:
     try:
